@@ -105,7 +105,9 @@ SPECIAL_BODIES = ['', 'True', '"True"', 'true', 'TRUE', 'True\n', ' True', '"Tru
                   '\'True\'', 'true ', '1', 'yes', 'False', 'null', '{"result": true}', '"True"\n', ' "True"', '"Tru\\u0065"',
                   'True' * 3, 'x' * 65536, 'True\x00', '﻿True', 'Тrue', 'True\r\n', '[true]', '"', '""', 'rue', 'Tru']
 TARGETS = [{'k': 'x'}, {'k': 'x', 'nested': {'a': [1, {'b': None}], 'c': 1.5}}, {'k': 'x', 'obj': object(), 'n': None},
-           {'k': 'x', 'deep': {'o': [object()]}}, {'other': 1}, {'k': 'x-1', 'q': 'with space/slash?&=', 'u': 'é'}]
+           {'k': 'x', 'deep': {'o': [object()]}}, {'other': 1}, {'k': 'x-1', 'q': 'with space/slash?&=', 'u': 'é'},
+           # keys that look like secrets (the library's debug dump masks such keys in a COPY of the target)
+           {'k': 'x', 'password': 'pw1', 'auth_token': 't0', 'nested': {'secret_ref': 's', 'passphrase_hint': [1]}}]
 CTX = ['bare', 'not', 'and', 'or', 'shortcut', 'alias', 'or_later', 'nested_or_later', 'not_or_later']
 
 
@@ -237,7 +239,9 @@ def run(ctx):
         pname = rng.choice(['p:x', 'compute:get', 'n'])
         scheme = rng.choice(['http', 'https'])
         by = 'check' if (rng.random() < 0.15 and ctxt != 'alias') else 'name'
+        ec.set_debug(rng.random() < 0.3)
         cases.append(one(ctx, rng, body, status, 'none', ctype, target, ctxt, pname, scheme, by))
+    ec.set_debug(False)
     # static URLs with an escaped percent sign
     for ctxt in CTX:
         for scheme in ('http', 'https'):
@@ -249,6 +253,15 @@ def run(ctx):
             live = ev.make_enforcer({'p:x': ev.rule_text(tree), 'remote': ev.rule_text(leaf)}, ('opt', None))
             for ctype in ('form', 'json', 'json', 'form', 'json'):
                 cases.append(one(ctx, rng, 'True', 200, 'none', ctype, {'k': 'x'}, ctxt, 'p:x', scheme, 'name', reuse=live))
+            # consecutive calls whose targets differ only in the TYPE of a value (1 / True / 1.0 / '1' are equal
+            # or look alike in Python, not in what the remote server is sent), and with secret-like keys under debug
+            for ctype in ('json', 'form'):
+                for tv in (1, True, 1.0, '1', 0, False, None, 'None', [1], [True]):
+                    cases.append(one(ctx, rng, 'True', 200, 'none', ctype, {'k': 'x', 'public': tv}, ctxt, 'p:x', scheme, 'name', reuse=live))
+                for dbg in (True, False, True):
+                    ec.set_debug(dbg)
+                    cases.append(one(ctx, rng, 'True', 200, 'none', ctype, copy.deepcopy(TARGETS[-1]), ctxt, 'p:x', scheme, 'name', reuse=live))
+                ec.set_debug(False)
     n_body = len(cases)
     # faults x contexts x bodies that would allow
     for fault in ['timeout', 'connect_timeout', 'connection', 'ssl']:
